@@ -525,7 +525,24 @@ func (e *Exec) conv(tDst, tSrc types.Type, x Value) Value {
 				}
 				return e.c.BV(uint64(f), w)
 			case FloatOf:
-				return e.toWidthSigned(f.T, f.Signed, w)
+				if f.T == nil {
+					e.unsupported("conversion of an unknown float to an integer")
+				}
+				// float64(int) -> int is the identity only for |x| <= 2^53; beyond that the
+				// value was rounded: the result is an arbitrary integer (fresh variable)
+				t64 := e.toWidthSigned(f.T, f.Signed, 64)
+				lim := e.mkInt(1 << 53)
+				var exact *smt.Term
+				if f.Signed {
+					exact = e.c.And(e.c.Cmp(smt.KSle, e.c.Neg(lim), t64), e.c.Cmp(smt.KSle, t64, lim))
+				} else {
+					exact = e.c.Cmp(smt.KUle, t64, lim)
+				}
+				r := e.toWidthSigned(f.T, f.Signed, w)
+				if b, ok := exact.ConstBool(); ok && b {
+					return r
+				}
+				return e.c.Ite(exact, r, e.freshInt("float-rounding", w))
 			}
 		case us.Info()&types.IsFloat != 0 && ub.Info()&types.IsFloat != 0:
 			if f, ok := x.(float64); ok {
@@ -767,7 +784,15 @@ func (e *Exec) callBuiltin(caller *frame, callpos token.Pos, fn *ssa.Builtin, ar
 				x.N = 0
 			}
 		case Slice:
-			e.unsupported("clear(slice)")
+			if st, ok := fn.Type().(*types.Signature); ok && st.Params().Len() == 1 {
+				if sl, ok := st.Params().At(0).Type().Underlying().(*types.Slice); ok {
+					for i := range x.A {
+						x.A[i] = e.zero(sl.Elem())
+					}
+					return nil
+				}
+			}
+			e.unsupported("clear(slice) of unknown element type")
 		}
 		return nil
 	}
